@@ -297,10 +297,15 @@ def run(chk):
                 for n in names:
                     if n == bad:
                         reached = False
-                        chk.obligation(n, False, "coqc failed here: " + out[-200:].replace("\n", " "))
+                        extra = ""
+                        if n == "reg_pure_current":
+                            extra = "register_hooks / its callees write module-level state: " + "; ".join(
+                                "%s (%s, line %d)" % (w["what"], w["fn"], w["line"]) for w in info["writes"] if w["kind"] == "WGlobal") + " — "
+                        chk.obligation(n, False, extra + "coqc failed here: " + out[-200:].replace("\n", " "))
                     else:
                         chk.obligation(n, reached, "" if reached else "not reached: depends on " + str(bad))
-                broken.append(("proof", bad or "C19.v", out[-800:]))
+                broken.append(("proof", bad or "C19.v", ("module-level state written: %s | " % [w["what"] for w in info["writes"] if w["kind"] == "WGlobal"]
+                                                         if bad == "reg_pure_current" else "") + out[-800:]))
                 if bad not in ("calls_once_current", "reg_pure_current", "C19_history_independent", "C19_creation_noninterference"):
                     # the locking discipline is not the proved one: ask Coq for a witness schedule
                     rp = V.stage_prop("C19_refuted")
